@@ -458,6 +458,11 @@ impl<P: Prop> DynProp for P {
                         if !l.frozen && (found.load(Ordering::SeqCst) || ctx.stop.load(Ordering::SeqCst)) {
                             return Ok(());
                         }
+                        // after a search deadline expired, every further attempt (shrinking) would
+                        // leak another stuck search: keep the case that was found
+                        if l.frozen && crate::search::TIMED_OUT.load(Ordering::SeqCst) {
+                            return Ok(());
+                        }
                         if slowlog {
                             eprintln!("START {:?} {}: {:?}", std::thread::current().id(), Prop::name(self), case);
                         }
